@@ -166,6 +166,13 @@ class App(object):
                 raise ValueError(act)
         except Exception as e:
             call['outcome'] = 'raised'
+            # keep the exception object but not its traceback: the traceback references the consumer frame and
+            # with it the generator, which would keep an abandoned generator alive (a harness artefact)
+            e.__traceback__ = None
+            if e.__context__ is not None:
+                e.__context__.__traceback__ = None
+            if e.__cause__ is not None:
+                e.__cause__.__traceback__ = None
             call['exc'] = e
         w.log.append(('app-end', idx, act))
         after = [e for e in w.log if e[0] in ('write', 'write-failed')]
